@@ -30,11 +30,12 @@ type zzHost struct{ host.Host }
 func (zzHost) Network() network.Network { return zzNet{} }
 
 type zzRangeEnv struct {
-	chain  []*zh.Hdr // canonical chain, chain[i].H = i+1
-	peers  []peer.ID
-	ex     *Exchange[*zh.Hdr]
-	reqs   int
-	behave func(peerIdx int, origin, amount uint64, nth int) ([]*p2p_pb.HeaderResponse, error)
+	chain     []*zh.Hdr // canonical chain, chain[i].H = i+1
+	peers     []peer.ID
+	ex        *Exchange[*zh.Hdr]
+	reqs      int
+	behave    func(peerIdx int, origin, amount uint64, nth int) ([]*p2p_pb.HeaderResponse, error)
+	behaveCtx func(ctx context.Context, peerIdx int, origin, amount uint64, nth int) ([]*p2p_pb.HeaderResponse, error)
 }
 
 func zzResp(h *zh.Hdr) *p2p_pb.HeaderResponse {
@@ -88,7 +89,13 @@ func zzNewRangeEnv(N, P, chunk int) *zzRangeEnv {
 		}
 		env.reqs++
 		zz.Gate("send:" + string(to))
-		rs, err := env.behave(idx, req.GetOrigin(), req.Amount, env.reqs)
+		var rs []*p2p_pb.HeaderResponse
+		var err error
+		if env.behaveCtx != nil {
+			rs, err = env.behaveCtx(ctx, idx, req.GetOrigin(), req.Amount, env.reqs)
+		} else {
+			rs, err = env.behave(idx, req.GetOrigin(), req.Amount, env.reqs)
+		}
 		if uint64(len(rs)) > req.Amount {
 			rs = rs[:req.Amount] // the real sendMessage reads at most req.Amount responses from the stream
 		}
